@@ -54,10 +54,11 @@ func runC13(c *ev.Ctx) {
 
 func c13Server(c *ev.Ctx) {
 	r := c.Rand("c13srv")
-	msizes := []uint32{23, 24, 34, 35, 64, 512, 4096, 8192, 65536, 1 << 20, mib4}
+	// requested msize; above 4 MiB the server announces 4 MiB and that is the limit
+	msizes := []uint32{23, 24, 34, 35, 64, 512, 4096, 8192, 65536, 1 << 20, mib4, mib4 + 1, 8 << 20, 1<<32 - 1}
 	idx := 0
 	for _, ms := range msizes {
-		m := uint64(ms)
+		m := minU64(uint64(ms), mib4) // what a conforming Rversion announces (C12); checked below
 		counts := []uint64{0, 1, 2, m - 12, m - 11, m - 10, m - 1, m, m + 1, 2 * m, mib4 - 1, mib4, mib4 + 1, 1 << 31, 1<<32 - 1}
 		for i := 0; i < c.Sz(3, 400); i++ {
 			counts = append(counts, r.U64()%(2*m+2), r.U64()>>uint(32+r.Intn(32)))
@@ -66,6 +67,9 @@ func c13Server(c *ev.Ctx) {
 		dsizes := []int{0, 1, 3, 50, 1000}
 		if c.Thorough() || ms <= 8192 {
 			dsizes = append(dsizes, 10000)
+		}
+		if ms >= mib4 {
+			dsizes = []int{3, 20000} // with 255-byte names: a listing of 5.6 MB, beyond the 4 MiB cap
 		}
 		// ---- Tread ----
 		for _, fsz := range fsizes {
@@ -79,7 +83,7 @@ func c13Server(c *ev.Ctx) {
 			srv := p9.NewServer(fs)
 			s, vr := newSess(srv, ms, v7)
 			if !vr.OK || vr.Msg.Type != wire.Rversion || vr.Msg.F[0].(uint64) != m {
-				c.Inconclusive(fmt.Sprintf("C13: version msize=%d not accepted as is: %v", ms, vr.Msg))
+				c.Inconclusive(fmt.Sprintf("C13: version msize=%d answered %v (expected announced msize %d)", ms, vr.Msg, m))
 				s.P.Close()
 				continue
 			}
@@ -151,6 +155,9 @@ func c13Server(c *ev.Ctx) {
 			for _, nl := range []int{1, 60, 255} {
 				idx++
 				if !c.Mine(idx) {
+					continue
+				}
+				if dsz >= 20000 && nl != 255 {
 					continue
 				}
 				fs := memfs.New()
